@@ -9,6 +9,7 @@ import (
 	"math/rand"
 	"net/http"
 	"net/http/httptest"
+	"net/url"
 	"sort"
 	"strings"
 
@@ -22,8 +23,9 @@ type rRoute struct {
 
 type rReq struct {
 	Method string `json:"method"`
-	Path   string `json:"path"`
+	Path   string `json:"path"` // the path as the router sees it: becomes URL.RawPath when Raw is set, else URL.Path
 	Host   string `json:"host,omitempty"`
+	Raw    bool   `json:"raw,omitempty"` // send Path as URL.RawPath (URL.Path = its percent-decoded form)
 }
 
 // rObs is what the real code did with one request.
@@ -105,6 +107,12 @@ func rNewRequest(q rReq) *http.Request {
 	req.Method = q.Method
 	req.URL.Path = q.Path
 	req.URL.RawPath = ""
+	if q.Raw {
+		if dec, err := url.PathUnescape(q.Path); err == nil && dec != q.Path {
+			req.URL.Path = dec
+			req.URL.RawPath = q.Path
+		}
+	}
 	if q.Host != "" {
 		req.Host = q.Host
 	}
@@ -237,7 +245,7 @@ func rMatchConservative(toks []rTok, path string) bool {
 
 var rLits = []string{"a", "b", "ab", "abc", "users", "x.y", "a-b", "new", "v1"}
 var rParams = []string{":id", ":name", ":x", ":y"}
-var rMethods = []string{"GET", "POST", "PUT", "DELETE", "OPTIONS", "X-CUSTOM", "PROPFIND", routeNotFound}
+var rMethods = []string{"GET", "POST", "PUT", "DELETE", "OPTIONS", "X-CUSTOM", "PROPFIND", "purge", "Baseline-Control", routeNotFound}
 
 type rGenOpts struct {
 	escaped  bool // allow `\:` segments
